@@ -52,7 +52,15 @@ def make_namespace(ns=None):
     async def aw(k):
         return k
 
-    ns.update({'T': T, 't': t, 'pv': pv, 'boom': boom, 'bad': bad, 'badp': badp, 'ext': ext, 'aw': aw, 'deco': (lambda f: f)})
+    def plong(k):
+        # five lines holding the characters that matter to string formatting of a failure report
+        print('row %d: 100%% done' % k)
+        print('{0} {x} {}')
+        print('%s %d %(name)s')
+        print('back\\slash \\n')
+        print('last line %d' % k)
+
+    ns.update({'plong': plong, 'T': T, 't': t, 'pv': pv, 'boom': boom, 'bad': bad, 'badp': badp, 'ext': ext, 'aw': aw, 'deco': (lambda f: f)})
     return ns, T
 
 
@@ -96,6 +104,8 @@ def statement(kind, k):
         return ['if t(%d) >= 0:' % k, '', '    print("c%d")' % k], 'c%d\n' % k, None, False, None
     if kind == 'gapclass':
         return ['class D%d(object):' % k, '    v = t(%d)' % k, '', '    w = 1'], '', None, False, None
+    if kind == 'plong':
+        return ['plong(t(%d))' % k], ('row %d: 100%% done\n{0} {x} {}\n%%s %%d %%(name)s\nback\\slash \\n\nlast line %d\n' % (k, k)), 'None', True, None
     if kind == 'classdef':
         return ['class C%d(object):' % k, '    v = t(%d)' % k], '', None, False, None
     if kind == 'tripstr':
